@@ -324,19 +324,25 @@ Print Assumptions C10_plugin_frame_verdicts.
 
 (* OnRequest answers (vd, t) exactly when the queue its lookup returned answered
    (b, t) to Enqueue: NoOp iff b = true, the early response iff b = false, and
-   then with the ResponseStatusCode of the configuration of that very call. *)
+   then with the ResponseStatusCode of the configuration of that very call.
+   A request the queue has answered always has its verdict (third part). *)
 Theorem C10_plugin_verdict : forall v acts k rid,
   let ks := pget k (prun v pinit acts) in
   (forall vd t, kverdict ks rid = Some (vd, t) <->
      exists b sc, kanswer ks rid = Some (b, t) /\ kstatus ks rid = Some sc /\
                   vd = (if b then VNoOp else VEarly sc)) /\
   (forall sc, kstatus ks rid = Some sc ->
-     exists p hdrs t now, In (PK k (KEnq rid p hdrs t now)) acts /\ p_status p = sc).
+     exists p hdrs t now, In (PK k (KEnq rid p hdrs t now)) acts /\ p_status p = sc) /\
+  (forall b t, kanswer ks rid = Some (b, t) -> exists vd, kverdict ks rid = Some (vd, t)).
 Proof.
-  intros v acts k rid ks. split; [intros; apply kverdict_spec|].
-  intros sc H. unfold ks in H. rewrite C10_plugin_frame in H.
-  destruct (kstatus_from_schedule _ _ _ _ _ H) as [p [hdrs [t [now [I E]]]]].
-  exists p, hdrs, t, now. split; [now apply proj_In|exact E].
+  intros v acts k rid ks. split; [intros; apply kverdict_spec|]. split.
+  - intros sc H. unfold ks in H. rewrite C10_plugin_frame in H.
+    destruct (kstatus_from_schedule _ _ _ _ _ H) as [p [hdrs [t [now [I E]]]]].
+    exists p, hdrs, t, now. split; [now apply proj_In|exact E].
+  - intros b t A. assert (S : kstatus ks rid <> None).
+    { apply answer_has_status; [|congruence]. unfold ks. rewrite C10_plugin_frame. apply ENQD_krun. }
+    destruct (kstatus ks rid) as [sc|] eqn:E; [|congruence].
+    exists (verdict_of sc b). unfold kverdict. now rewrite A, E.
 Qed.
 Print Assumptions C10_plugin_verdict.
 
